@@ -225,6 +225,8 @@ func runC13(r *Run) {
 	// ---------- C13.2 totality: fixed-width reads of key ids
 	r.Rule("C13.2", "BND: every binary.BigEndian.Uint16/Uint32/Uint64 read and every constant-index read of a []byte that comes from a parameter (key id, encoded key) is dominated by a length test on that slice; both schemes agree")
 	boundedReads(r, "C13.2", append(w.FuncsInPkg("gordian/gcrypto"), w.FuncsInPkg("gcrypto/gblsminsig")...))
+	r.Rule("C13.8", "the combination index of finalized BLS proofs is computed exactly: no machine-word product or shift feeds a big.Int in gblsminsig without an overflow test (encode and decode of a finalized proof must agree for every key-set size)")
+	exactIndexArithmetic(r, "C13.8")
 	r.Expect("C13.2", 6, "fixed-width reads in the signature schemes")
 
 	// ---------- C13.3 clone independence
